@@ -36,7 +36,7 @@ CHECKS = {
               "must equal the number of lines, and every loaded value must carry its group's probability. Exploration."),
         design='4/C04'),
     'C08': dict(
-        technique="Hypothesis property-based testing over (ruleset, every cut point) and generated multi-cycle quit/resume histories, driving the real pcfg_guesser.main() in-process with a harness-owned keyboard; multiset/order relations against the uninterrupted run",
+        technique="Hypothesis property-based testing over (ruleset, every cut point) and generated multi-cycle quit/resume histories, driving the real pcfg_guesser.main() in-process with a harness-owned keyboard; multiset/order relations against the uninterrupted run; fixed-shape scale part (index sums above 1000), a stdout whose consumer goes away followed by --load",
         text=("For generated tie-heavy rulesets the real main() is interrupted by an explicit 'q' noticed right after the k-th pop, for "
               "every k, the real save file is written and a real --load run resumes: the resumed sequence must be non-increasing, "
               "nothing above the saved probability, a superset of the uninterrupted remainder, and repeat only pre-terminals tied "
@@ -45,14 +45,14 @@ CHECKS = {
               "enumerated."),
         design='4/C08'),
     'C09': dict(
-        technique="Hypothesis property-based testing, metamorphic limit-N == prefix(N) for every N, model-side expansion oracle for the unlimited stream, byte-exact differential against real CLI subprocesses",
+        technique="Hypothesis property-based testing, metamorphic limit-N == prefix(N) for every N, model-side expansion oracle for the unlimited stream, byte-exact differential against real CLI subprocesses; tied groups of 1000-20000 values with limits at threshold offsets; CLI runs under generated invocation contexts incl. an ascii-only, block-buffered stdout",
         text=("Generated rulesets (incl. Markov levels) x flags: the real main() runs unlimited and with -n N for every N up to "
               "total+2; stdout must be exactly the first N lines of the unlimited run, and the unlimited stream must be exactly "
               "the model-side expansion of the popped pre-terminals (so any extra line on stdout is caught). A CLI part runs "
               "pcfg_guesser.py as a subprocess (stdin /dev/null or an open pipe) and compares raw stdout bytes. Exploration."),
         design='4/C09'),
     'C12': dict(
-        technique="Hypothesis-generated event schedules over a harness-owned keyboard thread (real keypress() in a real thread, scripted input()), history oracle against the uninterrupted stream; plus repeated real-process runs under six stdin conditions",
+        technique="Hypothesis-generated event schedules over a harness-owned keyboard thread (real keypress() in a real thread, scripted input()), history oracle against the uninterrupted stream; plus repeated real-process runs under six stdin conditions; harness-owned clock and tty-ness of stdin, neighbour sessions, requests inside one pre-terminal of up to 160 000 guesses",
         text=("The schedule of the keyboard thread is owned by the harness: status, help, quit, EOF, lost-stdin, OSError, ValueError and "
               "failing status prints are delivered at generated loop positions (between pops, after a guess, between two Markov "
               "guesses, inside a restored Markov remainder) in histories of up to 3 runs, and the thread settles before the loop "
@@ -62,7 +62,7 @@ CHECKS = {
               "the full stream. Exploration; pre-emptive races are sampled, not enumerated."),
         design='4/C12'),
     'C15': dict(
-        technique="Hypothesis property-based testing over (ruleset with OMEN model, every quit position) and generated multi-quit histories through the real main(); exact concatenation oracle against the uninterrupted stream",
+        technique="Hypothesis property-based testing over (ruleset with OMEN model, every quit position) and generated multi-quit histories through the real main(); exact concatenation oracle against the uninterrupted stream; neighbour sessions, runs of a history in separate processes with different string-hash seeds",
         text=("For generated rulesets with generated OMEN models a quit is requested after every guess index of the run (all positions "
               "inside every Markov level), the session is resumed with --load and on a sample interrupted again; histories with up "
               "to 4 quits are generated. With distinct probabilities the runs must concatenate to exactly the uninterrupted "
@@ -70,7 +70,7 @@ CHECKS = {
               "pre-terminals tied with a saved position may repeat. Exploration; every position of each generated run is enumerated."),
         design='4/C15'),
     'C14': dict(
-        technique="Hypothesis property-based testing with a metamorphic oracle (flagged run vs. filtered/rescaled default run of the same real guesser) plus model-side all-lower language; flags through save/restore via the real main()",
+        technique="Hypothesis property-based testing with a metamorphic oracle (flagged run vs. filtered/rescaled default run of the same real guesser) plus model-side all-lower language; flags through save/restore via the real main(); neighbour sessions with other flags under related session names",
         text=("Generated rulesets with the Markov structure at any position, absent or alone, under all four flag combinations: the "
               "skip_brute run must equal the default run minus Markov pre-terminals, same order modulo mathematically tied "
               "probabilities, rescaled by 1/(1-P(Markov)) (identity without a Markov structure; nothing for Markov-only); "
@@ -79,7 +79,7 @@ CHECKS = {
               "flagged run's pre-terminals and language. Exploration."),
         design='4/C14'),
     'C16': dict(
-        technique="Hypothesis property-based testing with scripted uniform draws: breakpoint sweep of the piecewise-constant sampler against exact cumulative sums, scripted in-group choices, end-to-end language/limit/reproducibility checks (in-process and CLI)",
+        technique="Hypothesis property-based testing with scripted uniform draws: breakpoint sweep of the piecewise-constant sampler against exact cumulative sums, scripted in-group choices, end-to-end language/limit/reproducibility checks (in-process and CLI); CLI runs with --load histories, named sessions and different hash seeds",
         text=("The random source seen by the sampler is replaced by a script, so the draw can be placed exactly on, one ulp around and "
               "between every cumulative-probability breakpoint of the base list and of every variable of generated count-normalised "
               "rulesets (and of sub-normalised base lists): the selected structure/group must be the interval containing the draw, "
@@ -88,7 +88,7 @@ CHECKS = {
               "reproduce itself in-process and across CLI processes. Exploration."),
         design='4/C16'),
     'C17': dict(
-        technique="Hypothesis property-based testing: real prince_ling.main() unbounded / to a file / with every --size N, against a model-side language of (type, value, capitalisation) with exact-rational probabilities; metamorphic size-N == prefix(N); CLI byte comparison",
+        technique="Hypothesis property-based testing: real prince_ling.main() unbounded / to a file / with every --size N, against a model-side language of (type, value, capitalisation) with exact-rational probabilities; metamorphic size-N == prefix(N); CLI byte comparison; prince_ling.py as a subprocess under generated invocation contexts (relative / absolute -o, existing output files)",
         text=("Generated rulesets with a PRINCE base list (all terminal types incl. e-mail/website), both all_lower settings: the "
               "unbounded list must be the model language with one word per derivation in non-increasing model probability, the "
               "file written with --output must be byte-identical to stdout, and --size N must give exactly the first N words for "
@@ -96,7 +96,7 @@ CHECKS = {
               "generated ruleset is enumerated."),
         design='4/C17'),
     'C20': dict(
-        technique="Hypothesis property-based testing: real edit_rules.edit_rules() on generated rulesets x generated option sets, independent filter oracle (own tokenizer and label arithmetic), SHA-256 tree comparison, guess lengths from the real guesser on the edited ruleset",
+        technique="Hypothesis property-based testing: real edit_rules.edit_rules() on generated rulesets x generated option sets, independent filter oracle (own tokenizer and label arithmetic), SHA-256 tree comparison, guess lengths from the real guesser on the edited ruleset; edit_rules.py as a subprocess under generated invocation contexts (non-ASCII names, ascii-only or unwritable stdout: nothing half-written)",
         text=("Generated rulesets and option combinations (length bounds, terminal sets, regexes, --copy): the edited base list must be "
               "a sub-sequence of the original lines with identical text, every structure the independent oracle says passes must "
               "stay and every one that fails must go, no other file (and with --copy nothing in the source) may change, and every "
@@ -105,7 +105,7 @@ CHECKS = {
         design='4/C20',
         note=(NOTE_COMMON + ' Two open known findings (F20: context label X<n> counted as n characters; F20b: letters whose upper-case form is longer than one character) are matched by signature on the failing case and printed as KNOWN-FINDING; any other violation of the property still exits 1.')),
     'C10': dict(
-        technique="Hypothesis property-based testing of generated OMEN models x every level, and a Hypothesis RuleBasedStateMachine over cache histories (shared optimizer), against an independent DFS reference enumerator; deterministic work budget instead of timeouts",
+        technique="Hypothesis property-based testing of generated OMEN models x every level, and a Hypothesis RuleBasedStateMachine over cache histories (shared optimizer), against an independent DFS reference enumerator; deterministic work budget instead of timeouts; OMEN files in LF / CRLF / unterminated spellings",
         text=("Generated OMEN models (n-gram 2-5, sparse/dense, dead-end and expensive-only contexts, length == n-gram size) are written "
               "to disk, loaded by the real loader and every level 0..12 is generated by the real MarkovCracker: no duplicates, set "
               "equal to an independent enumerator's, exhaustion reported. A rule-based state machine interleaves full runs, "
@@ -113,7 +113,7 @@ CHECKS = {
               "reference, so results cannot depend on cache contents or generation history. Exploration."),
         design='4/C10'),
     'C05': dict(
-        technique="Hypothesis property-based testing (structured password grammar + st.text filtered by the real input filter) and a Hypothesis RuleBasedStateMachine over detector training histories; validity-predicate oracle on the recorded segmentation and exact counter-delta tallies",
+        technique="Hypothesis property-based testing (structured password grammar + st.text filtered by the real input filter) and a Hypothesis RuleBasedStateMachine over detector training histories; validity-predicate oracle on the recorded segmentation and exact counter-delta tallies; plus the whole run_trainer on generated lists (expanded / --prefixcount spellings, -m word list) against a reference multi-word model",
         text=("Passwords built from interleaving/overlapping trigger fragments (words, multi-words, digits, years, keyboard walks over "
               "both layouts, context strings and near-misses, e-mail/website look-alikes, Unicode incl. U+0130) are parsed by the real "
               "parser behind a real multi-word detector whose training history is generated and mirrored in a dict model; the section "
@@ -123,7 +123,7 @@ CHECKS = {
               "counters must change by exactly the tallies of those segments. Exploration."),
         design='4/C05'),
     'C19': dict(
-        technique="Hypothesis-generated training files (bytes) against a reference line reader (differential), metamorphic relation plain == $HEX == count-prefixed on rulesets produced by the real trainer, equality of the three passes, marker-based leak detection",
+        technique="Hypothesis-generated training files (bytes) against a reference line reader (differential), metamorphic relation plain == $HEX == count-prefixed on rulesets produced by the real trainer, equality of the three passes, marker-based leak detection; trainer.py as a subprocess for every rendering under generated invocation contexts (strict-UTF-8 stdout)",
         text=("Training files are generated as bytes in five encodings with plain/hex/count-prefixed renderings, CRLF, look-alikes, "
               "spaces and junk lines (tabs, control and separator characters, undecodable bytes, bad hex, missing passwords): the real "
               "reader's yielded sequence and counters must equal a reference reader's; the real trainer run on the three equivalent "
@@ -131,7 +131,7 @@ CHECKS = {
               "and a marker carried by every junk line must not appear in any ruleset file. Exploration."),
         design='4/C19'),
     'C06': dict(
-        technique="Hypothesis property-based testing of the real run_trainer(): every written list is recomputed from the harness' own tallies of the recorded segmentation (count/total, order, sum), Markov pseudo-count formula, E/W filter; determinism by repeated runs incl. another process with another hash seed",
+        technique="Hypothesis property-based testing of the real run_trainer(): every written list is recomputed from the harness' own tallies of the recorded segmentation (count/total, order, sum), Markov pseudo-count formula, E/W filter; determinism by repeated runs incl. another process with another hash seed; trainer.py as a subprocess under generated invocation contexts (working directory, rule-name spellings, neighbours and stale files in Rules/)",
         text=("Generated training lists (ties in counts, single-item length classes, lists dominated by e-mail/website structures) x "
               "coverage 0..1 x n-gram x alphabet size: each terminal, mask, base-structure, raw and PRINCE list on disk must contain "
               "exactly the items of the recorded segmentation, once each, with probability count/total, in non-increasing order, "
@@ -140,14 +140,14 @@ CHECKS = {
               "byte-identical apart from the UUID. Exploration."),
         design='4/C06'),
     'C03': dict(
-        technique="Hypothesis property-based end-to-end testing: generated training lists through the real trainer, the ruleset on disk, the real loader and a full real guesser run; membership oracle on the recorded segmentation and probability-mass check",
+        technique="Hypothesis property-based end-to-end testing: generated training lists through the real trainer, the ruleset on disk, the real loader and a full real guesser run; membership oracle on the recorded segmentation and probability-mass check; plus a real-process part (trainer.py then pcfg_guesser.py with one spelling of -r) under generated invocation contexts",
         text=("Generated lists over five encodings, coverage (0,1], n-gram and alphabet sizes are trained by the real trainer; the "
               "resulting ruleset is loaded by the real guesser (Markov skipped), the queue is drained and every pre-terminal "
               "expanded: every training password whose segmentation has no e-mail/website segment must be emitted byte for byte and "
               "the probabilities of all emitted guesses must sum to 1. Exploration, bounded to languages of 40000 guesses."),
         design='4/C03'),
     'C07': dict(
-        technique="Exhaustive enumeration of all accepted code points (round trip real writer -> real guesser loader and real scorer loader, batched with bisection) plus Hypothesis property-based differential testing of trained rulesets across trainer counters, guesser tables, scorer tables, OMEN loaders and config.ini lists",
+        technique="Exhaustive enumeration of all accepted code points (round trip real writer -> real guesser loader and real scorer loader, batched with bisection) plus Hypothesis property-based differential testing of trained rulesets across trainer counters, guesser tables, scorer tables, OMEN loaders and config.ini lists; re-training into a used directory, CRLF / unterminated files, numeric shapes of the probability column",
         text=("Every one of the ~1.11 million code points the input filter accepts (and every byte of the single-byte encodings) is "
               "written at four positions by the real rules writer and must be read back unchanged, with the exact probability, by both "
               "real loaders - this sub-part is exhaustive. Generated training lists in five encodings are trained and every value, "
@@ -164,14 +164,14 @@ CHECKS = {
               "other; omen_pws_per_level.txt must equal the tally of trainer levels. Exploration."),
         design='4/C11'),
     'C18': dict(
-        technique="Hypothesis property-based testing: saved omen_keyspace.txt / pcfg_omen_prob.txt of really trained rulesets against a count of the real Markov generator's distinct output per level",
+        technique="Hypothesis property-based testing: saved omen_keyspace.txt / pcfg_omen_prob.txt of really trained rulesets against a count of the real Markov generator's distinct output per level; every listed level 1..18 also against an independent dynamic-programming count; both spellings of the training list",
         text=("Generated lists of short passwords over tiny alphabets (dominated by length == n-gram size or by a single length) are "
               "trained; for every listed level that is small enough to enumerate the real MarkovCracker is run to exhaustion and the "
               "number of distinct strings must equal the saved keyspace, and the saved level probability must be (count at level / N) "
               "/ keyspace, with zero-keyspace levels absent. Exploration; larger levels are inconclusive and counted."),
         design='4/C18'),
     'C13': dict(
-        technique="Hypothesis property-based differential testing of the real scorer against the language map of a full real guesser run on rulesets produced by the real trainer, with perturbed candidates; classification and purity checks",
+        technique="Hypothesis property-based differential testing of the real scorer against the language map of a full real guesser run on rulesets produced by the real trainer, with perturbed candidates; classification and purity checks; scorer cut-off (--limit), rulesets narrowed as edit_rules leaves them, password_scorer.py as a subprocess under generated invocation contexts",
         text=("Generated training lists are trained, the real guesser enumerates the whole (bounded) language with pre-terminal "
               "probabilities, and the real scorer scores training passwords, guesser output, case/digit/symbol perturbations, unrelated "
               "strings and e-mail/website strings: a non-zero score requires the exact string in the guesser's language with a "
